@@ -61,6 +61,11 @@ def _place(rng, doc, stage, p_prio, p_del):
     return d
 
 
+def _same_place(p, q):
+    """do the two paths possibly name the same node?  (a list position can be spelled from either end: any two integers may coincide)"""
+    return len(p) == len(q) and all(a == b or (isinstance(a, int) and isinstance(b, int) and not isinstance(a, bool) and not isinstance(b, bool)) for a, b in zip(p, q))
+
+
 def gen_case(rng, tier):
     nst = rng.choice([2, 2, 2, 3, 3, 4])
     docs = gen.rand_sequence(rng, nst, rng.choice([2, 3, 4]), kinds=('s',), pool_s=POOL, hostile=False, marker=gen.Marker(),
@@ -76,7 +81,7 @@ def gen_case(rng, tier):
         # later stages act on its ancestors only (what is merged *onto* a function node follows C13's table, not this model)
         for d in docs[1:]:
             for p, n in list(emit.walk(d)):
-                if n['t'] == 'map' and p == fpath[:-1]:
+                if n['t'] == 'map' and _same_place(p, fpath[:-1]):
                     n['items'] = [x for x in n['items'] if x[0] != fpath[-1]]
         it[1] = SP(rng.choice(['call', 'bind']), func='verif_targets.fn%d' % rng.randrange(5),
                    args=M([[k, gen.scalar_node(rng, gen.rand_scalar(rng, False))] for k in rng.sample(['x', 'y', 0], rng.randrange(0, 3))]))
@@ -117,7 +122,7 @@ def gen_case(rng, tier):
     if fpath is not None:
         for d in out[1:]:
             for p, n in list(emit.walk(d)):
-                if n['t'] == 'map' and p == fpath[:-1]:
+                if n['t'] == 'map' and _same_place(p, fpath[:-1]):
                     n['items'] = [x for x in n['items'] if x[0] != fpath[-1]]
     style = rng.choice(['flow', 'block'])
     r2 = random.Random(rng.randrange(1 << 30))
